@@ -5,6 +5,16 @@ namespace UsualProofs.C11
 theorem z_toNat (b : B) : (z b).toNat = b.toNat := by
   unfold z; simp only [BitVec.truncate_eq_setWidth, BitVec.toNat_setWidth]; have := b.isLt; omega
 
+/-- the machine-arithmetic negation used by the model is two's-complement negation of the
+promoted byte (checked for all 256 bytes by kernel evaluation) -/
+theorem negByte_eq (b : B) : negByte b = -(z b) := by
+  have key : ∀ n : Fin 256, negByte (BitVec.ofNat 8 n.val) = -(z (BitVec.ofNat 8 n.val)) := by
+    decide +kernel
+  have := key ⟨b.toNat, b.isLt⟩
+  simpa only [BitVec.ofNat_toNat, BitVec.setWidth_eq] using this
+
+theorem bad_eq (b : B) : bad b = (-(z b), 1) := by unfold bad; rw [negByte_eq]
+
 theorem zmm_toNat (b : B) (m k : Nat) (hm : m ≤ 256) (hm0 : 0 < m) (hk : k ≤ 262144) :
     (z b % BitVec.ofNat 32 m * BitVec.ofNat 32 k).toNat = b.toNat % m * k := by
   have := b.isLt
